@@ -10,8 +10,15 @@ type Entry struct {
 	ID    string
 	Level string
 	Fn    Check
+	// Shards: number of worker processes for the quick / thorough tier (0 or 1 = run in this process).
+	ShardsQuick, ShardsThorough int
 }
 
 var Registry = map[string]Entry{}
 
 func Register(id, level string, fn Check) { Registry[id] = Entry{ID: id, Level: level, Fn: fn} }
+
+// RegisterSharded registers a check whose work is split over worker processes (ev.Shard tells each its part).
+func RegisterSharded(id, level string, quick, thorough int, fn Check) {
+	Registry[id] = Entry{ID: id, Level: level, Fn: fn, ShardsQuick: quick, ShardsThorough: thorough}
+}
